@@ -1012,6 +1012,16 @@ def method(I, recv, name, args, e, env):
             return UNIT
         if name == "pop":
             return Some(recv.pop()) if recv else NONE
+        if name in ("sort_by_cached_key", "sort_by_key", "sort_by", "sort", "dedup", "dedup_by_key"):
+            I.ex.notes.append(("unmodelled-reorder", name))
+            return UNIT      # element order / duplicates are not modelled: only used where the obligation does not depend on them
+        if name == "reverse":
+            recv.reverse()
+            return UNIT
+        if name == "as_value":
+            r = Enum("Value", "Node", [SVec(recv)])
+            r.file = I.type_files.get("Value", [None])[0]
+            return r
         if name == "remove_first":
             raise Unsupported(name)
         raise Unsupported("Vec::%s" % name)
